@@ -34,6 +34,8 @@ package mcap
     requires offset >= 0 && offset <= len(data)
     ensures err == nil ==> newoffset == offset + 4 + le32at(data, offset) && newoffset <= len(data) && len(s) == newoffset - offset - 4
     ensures err != nil ==> newoffset == 0
+    ensures [accepts-whatever-follows-the-declared-length] {C01 C11} (err == nil) == (offset + 4 <= len(data) && offset + 4 + le32at(data, offset) <= len(data))
+    ensures [string-is-the-declared-bytes] {C01 C11} err == nil ==> forall(k, 0, len(s), s[k] == data[offset + 4 + k])
 @*/
 
 /*@ func getPrefixedBytes
@@ -41,6 +43,8 @@ package mcap
     requires offset >= 0 && offset <= len(data)
     ensures err == nil ==> newoffset == offset + 4 + le32at(data, offset) && newoffset <= len(data) && len(s) == newoffset - offset - 4
     ensures err != nil ==> newoffset == 0
+    ensures [accepts-whatever-follows-the-declared-length] {C01 C11} (err == nil) == (offset + 4 <= len(data) && offset + 4 + le32at(data, offset) <= len(data))
+    ensures [bytes-are-the-declared-range] {C01 C11} err == nil ==> base(s) == base(data) && off(s) == off(data) + offset + 4
 @*/
 
 /*@ func getPrefixedMap
@@ -75,33 +79,45 @@ package mcap
     spec smGet(sm, key) = ite(key < len(sm.items), sm.items[key], nil)
 @*/
 
+/*@ spec tokenOf(op) = ite(op == OpHeader, TokenHeader, ite(op == OpFooter, TokenFooter, ite(op == OpSchema, TokenSchema, ite(op == OpChannel, TokenChannel,
+        ite(op == OpMessage, TokenMessage, ite(op == OpChunk, TokenChunk, ite(op == OpMessageIndex, TokenMessageIndex, ite(op == OpChunkIndex, TokenChunkIndex,
+        ite(op == OpAttachmentIndex, TokenAttachmentIndex, ite(op == OpStatistics, TokenStatistics, ite(op == OpMetadata, TokenMetadata, ite(op == OpMetadataIndex, TokenMetadataIndex,
+        ite(op == OpSummaryOffset, TokenSummaryOffset, ite(op == OpDataEnd, TokenDataEnd, TokenError))))))))))))))
+    spec pos(r) = ghost(rd_pos, r)
+@*/
+
 /*@ spec wfLexer(l) = l != nil && len(l.buf) == 32 && l.reader != nil && l.basereader != nil
 @*/
 
 /*@ func readUint64
     safety C10
     requires len(buf) >= 8 && r != nil
+    ensures [source-fault-is-an-error-and-never-eof] {C15} (faulted() && !old(faulted()) ==> err != nil && !isEOF(err)) && (old(faulted()) ==> faulted())
 @*/
 
 /*@ func readPrefixedString
     safety C10
     requires len(buf) >= 4 && r != nil
+    ensures [source-fault-is-an-error-and-never-eof] {C15} (faulted() && !old(faulted()) ==> err != nil && !isEOF(err)) && (old(faulted()) ==> faulted())
 @*/
 
 /*@ func skipReader
     safety C10
     requires r != nil
+    ensures [source-fault-is-an-error-and-never-eof] {C15} (faulted() && !old(faulted()) ==> r0 != nil && !isEOF(r0)) && (old(faulted()) ==> faulted())
 @*/
 
 /*@ func validateMagic
     safety C10
     requires r != nil
+    ensures [source-fault-is-an-error-and-never-eof] {C15} (faulted() && !old(faulted()) ==> r0 != nil && !isEOF(r0)) && (old(faulted()) ==> faulted())
 @*/
 
 /*@ func NewLexer
     safety C10
     requires r != nil && (len(opts) > 0 ==> opts[0] != nil)
     ensures r1 == nil ==> fresh(r0) && wfLexer(r0)
+    ensures [source-fault-is-an-error-and-never-eof] {C15} (faulted() && !old(faulted()) ==> r1 != nil && !isEOF(r1)) && (old(faulted()) ==> faulted())
 @*/
 
 /*@ func loadChunk
@@ -110,6 +126,11 @@ package mcap
     touches l
     ensures wfLexer(l)
     ensures [chunk-buffer-replaced-only-when-too-small] {C20} err == nil && base(l.uncompressedChunk) != old(base(l.uncompressedChunk)) ==> len(l.uncompressedChunk) > old(len(l.uncompressedChunk))
+    ensures [source-fault-is-an-error-and-never-eof] {C15} (faulted() && !old(faulted()) ==> err != nil && !isEOF(err)) && (old(faulted()) ==> faulted())
+    ensures [chunk-entered-only-from-the-base-source] {C09 C01} l.basereader == old(l.basereader) && (err == nil ==> l.inChunk && !old(l.inChunk))
+    call setNoneDecoder#1 assert [served-bytes-are-the-validated-ones] {C07} l.validateChunkCRCs && len(arg0) == uncompressedSize && base(arg0) == base(l.uncompressedChunk) && off(arg0) == off(l.uncompressedChunk)
+        && (uncompressedCRC == 0 || crcOfBytes(arg0) == uncompressedCRC)
+    ensures [validated-chunk-is-served-from-the-checked-buffer] {C07} err == nil && l.validateChunkCRCs ==> l.decoders.none != nil && l.reader == iface(l.decoders.none) && pos(l.reader) == 0
 @*/
 
 /*@ func (*Lexer).Next
@@ -118,6 +139,18 @@ package mcap
     touches l
     ensures wfLexer(l)
     loop 1 invariant wfLexer(l)
+    call Uint64#1 label HD
+    call Uint64#1 assert [header-is-the-next-nine-stream-bytes] {C01 C09 C15} forall(k, 0, 9, l.buf[k] == streamByte(l.reader, pos(l.reader) - 9 + k))
+    ensures [record-is-the-stream-range-the-header-announces] {C01 C09 C15} r2 == nil ==> len(r1) == at(HD, le64at(l.buf, 1))
+        && pos(at(HD, l.reader)) == at(HD, pos(l.reader)) + len(r1)
+        && forall(j, 0, len(r1), r1[j] == at(HD, streamByte(l.reader, pos(l.reader) + j)))
+    ensures [token-is-the-opcode-of-that-header] {C01 C09 C11} r2 == nil ==> r0 == tokenOf(at(HD, l.buf[0])) && r0 != TokenError
+    ensures [no-token-without-error-or-record] {C09} r2 != nil ==> len(r1) == 0
+    ensures [source-fault-is-an-error-and-never-eof] {C15} (faulted() && !old(faulted()) ==> r2 != nil && !isEOF(r2)) && (old(faulted()) ==> faulted())
+    loop 1 invariant [no-fault-so-far] {C15} faulted() == old(faulted())
+    loop 1 backedge [unknown-opcode-skipped-whole] {C11} opcode > 15 && l.inChunk == athead(l.inChunk) ==> l.reader == athead(l.reader) && pos(l.reader) == athead(pos(l.reader)) + 9 + recordLen
+    loop 1 backedge [end-of-chunk-returns-to-the-base-source] {C09 C01} athead(l.inChunk) && !l.inChunk ==> l.reader == l.basereader
+    ensures [invalid-chunk-token-only-for-a-crc-error] {C07} r0 == TokenInvalidChunk ==> isCRC(r2) && l.emitInvalidChunks
 @*/
 
 /*@ func (*Lexer).Close
@@ -128,23 +161,30 @@ package mcap
 /*@ func newCRCReader
     safety C10
     ensures result != nil && result.r == r && result.crc != nil
+    ensures [new-crc-reader-wiring] {C07} result.computeCRC == computeCRC && ghost(crc_hi, result.crc) == 0 && fresh(result)
 @*/
 
 /*@ func (*crcReader).Read
     safety C10
     requires r != nil && r.r != nil && r.crc != nil
     ensures r0 >= 0 && r0 <= len(p)
+    ensures [hash-absorbs-exactly-the-bytes-returned] {C07} r.crc == old(r.crc) && r.r == old(r.r) && r.computeCRC == old(r.computeCRC)
+        && (r.computeCRC ==> ghost(crc_hi, r.crc) == old(ghost(crc_hi, r.crc)) + r0 && (r0 > 0 ==> ghost(crc_last, r.crc) == slid(p[:r0])))
+        && (!r.computeCRC ==> ghost(crc_hi, r.crc) == old(ghost(crc_hi, r.crc)))
 @*/
 
 /*@ func (*crcReader).Checksum
     safety C10
     requires r != nil && r.crc != nil
+    ensures [checksum-is-the-hash-sum] {C07} result == crcsum(r.crc, ghost(crc_hi, r.crc))
 @*/
 
 /*@ func parseAttachmentReader
     safety C10
     requires r != nil
     ensures r1 == nil ==> fresh(r0) && r0 != nil && r0.data != nil && r0.crcReader != nil && r0.crcReader.crc != nil && r0.baseReader != nil
+    ensures [source-fault-is-an-error-and-never-eof] {C15} (faulted() && !old(faulted()) ==> r1 != nil && !isEOF(r1)) && (old(faulted()) ==> faulted())
+    ensures [attachment-reader-wiring] {C07 C09} r1 == nil ==> r0.baseReader == r && r0.crcReader.r == r && r0.crcReader.computeCRC == computeCRC && r0.data.R == iface(r0.crcReader) && r0.data.N == int64(r0.DataSize)
 @*/
 
 /*@ spec wfAttachmentReader(ar) = ar != nil && ar.data != nil && ar.crcReader != nil && ar.crcReader.crc != nil && ar.baseReader != nil
@@ -153,11 +193,13 @@ package mcap
 /*@ func (*AttachmentReader).ComputedCRC
     safety C10
     requires wfAttachmentReader(ar)
+    ensures [computed-crc-only-after-all-data] {C07} r1 == nil ==> ar.data.N <= 0 && r0 == crcsum(ar.crcReader.crc, ghost(crc_hi, ar.crcReader.crc))
 @*/
 
 /*@ func (*AttachmentReader).ParsedCRC
     safety C10
     requires wfAttachmentReader(ar)
+    call ReadFull#1 assert [stored-crc-read-from-the-base-source-not-through-the-hash] {C07} arg0 == ar.baseReader && len(arg1) == 4 && ar.data.N <= 0
 @*/
 
 // ---------------------------------------------------------------------------------------------
@@ -169,6 +211,9 @@ package mcap
     touches m
     ensures [decoded-fields] {C01 C04 C11} err == nil ==> len(buf) >= 22 && m.ChannelID == old(le16at(buf, 0)) && m.Sequence == old(le32at(buf, 2)) && m.LogTime == old(le64at(buf, 6)) && m.PublishTime == old(le64at(buf, 14)) && len(m.Data) == len(buf) - 22
     ensures [short-is-error] {C01 C11} err != nil ==> len(buf) < 22
+    ensures [data-is-the-rest-of-the-record] {C01 C11} err == nil ==> forall(k, 0, len(m.Data), m.Data[k] == old(buf[22 + k]))
+    ensures [copied-data-does-not-alias-the-record] {C01} err == nil && copyData && len(buf) > 22 ==> base(m.Data) != base(buf) || base(buf) == old(base(m.Data))
+    ensures [uncopied-data-aliases-the-record] {C01} err == nil && !copyData ==> base(m.Data) == base(buf) && off(m.Data) == off(buf) + 22
 @*/
 
 /*@ spec wfUnindexed(it) = it != nil && wfLexer(it.lexer)
@@ -184,6 +229,12 @@ package mcap
     loop 1 backedge [skip-only-unselected] {C04} tokenType == TokenMessage ==> (smGet(it.channels, msg.ChannelID) == nil || !inWindow(it.start, it.end, msg.LogTime))
     loop 1 backedge [channel-kept-iff-selected] {C04} tokenType == TokenChannel && (len(it.topics) == 0 || it.topics[channelInfo.Topic]) ==> smGet(it.channels, channelInfo.ID) == channelInfo
     loop 1 invariant wfUnindexed(it) && msg != nil
+    ensures [source-fault-is-an-error-and-never-eof] {C15} (faulted() && !old(faulted()) ==> r3 != nil && !isEOF(r3)) && (old(faulted()) ==> faulted())
+    loop 1 invariant [no-fault-so-far] {C15} faulted() == old(faulted())
+    call PopulateFrom#1 assert [message-data-is-copied-out-of-the-record-buffer] {C01} arg1 == true
+    ensures [message-bound-to-its-channel-and-schema] {C01} r3 == nil ==> r1 == smGet(it.channels, r2.ChannelID) && r1 != nil && r0 == smGet(it.schemas, r1.SchemaID) && (r1.SchemaID != 0 ==> r0 != nil)
+    loop 1 backedge [last-schema-definition-wins] {C01 C12} tokenType == TokenSchema ==> smGet(it.schemas, schema.ID) == schema
+    loop 1 backedge [metadata-callback-gets-every-metadata-record] {C02} tokenType == TokenMetadata && it.metadataCallback != nil ==> metadata != nil
 @*/
 
 /*@ func (*unindexedMessageIterator).Next
@@ -199,6 +250,7 @@ package mcap
     safety C10
     requires r != nil
     ensures r1 == nil ==> wfReader(r0)
+    ensures [source-fault-is-an-error-and-never-eof] {C15} (faulted() && !old(faulted()) ==> r1 != nil && !isEOF(r1)) && (old(faulted()) ==> faulted())
 @*/
 
 /*@ func (*Reader).unindexedIterator
@@ -217,33 +269,51 @@ package mcap
         && len(result.chunkIndexes) == 0 && len(result.messageIndexes) == 0 && result.curMessageIndex == 0 && result.curChunkIndex == 0
         && len(result.chunkSlots) == 0 && len(result.metadataIndexes) == 0
     ensures [window-from-options] {C04} result.start == opts.StartNanos && result.end == opts.EndNanos && result.order == opts.Order
+    ensures [options-finalized] {C02 C08} result.start == ite(old(opts.StartNanos) == 0 && old(opts.Start) > 0, old(opts.Start), old(opts.StartNanos))
+        && result.end == ite(old(opts.EndNanos) == 0 && old(opts.End) > 0, old(opts.End), old(opts.EndNanos)) && result.order == old(opts.Order)
+        && (len(old(opts.Topics)) == 0 ==> len(result.topics) == 0)
+    loop 1 invariant [topic-map-no-larger-than-list] {C02 C08} len(topicMap) >= 0 && len(topicMap) <= iter && len(opts.Topics) == old(len(opts.Topics))
 @*/
 
 /*@ func (*indexedMessageIterator).seekTo
     safety C10
     requires it != nil && it.rs != nil
+    ensures [source-fault-is-an-error-and-never-eof] {C15} (faulted() && !old(faulted()) ==> r0 != nil && !isEOF(r0)) && (old(faulted()) ==> faulted())
 @*/
 
 /*@ func readRecord
     safety C10
     requires r != nil
+    ensures [source-fault-is-an-error-and-never-eof] {C15} (faulted() && !old(faulted()) ==> r2 != nil && !isEOF(r2)) && (old(faulted()) ==> faulted())
 @*/
 
 /*@ func ParseHeader
     safety C10
     ensures r1 == nil ==> r0 != nil && fresh(r0)
+    ensures [header-fields] {C01 C11} r1 == nil ==> len(r0.Profile) == le32at(buf, 0) && len(r0.Library) == le32at(buf, 4 + len(r0.Profile))
+        && forall(k, 0, len(r0.Profile), r0.Profile[k] == buf[4 + k]) && forall(k, 0, len(r0.Library), r0.Library[k] == buf[8 + len(r0.Profile) + k])
+    ensures [header-accepts-longer-records] {C11} len(buf) >= 4 && 8 + le32at(buf, 0) <= len(buf) && 8 + le32at(buf, 0) + le32at(buf, 4 + le32at(buf, 0)) <= len(buf) ==> r1 == nil
 @*/
 /*@ func ParseFooter
     safety C10
     ensures r1 == nil ==> r0 != nil && fresh(r0)
+    ensures [footer-fields-at-their-offsets] {C01 C11} (r1 == nil) == (len(buf) >= 20)
+    ensures [footer-fields-at-their-offsets] {C01 C11} r1 == nil ==> r0.SummaryStart == le64at(buf, 0) && r0.SummaryOffsetStart == le64at(buf, 8) && r0.SummaryCRC == le32at(buf, 16)
 @*/
 /*@ func ParseSchema
     safety C10
     ensures r1 == nil ==> r0 != nil && fresh(r0)
+    ensures [schema-fields] {C01 C11} r1 == nil ==> r0.ID == le16at(buf, 0) && len(r0.Name) == le32at(buf, 2) && len(r0.Encoding) == le32at(buf, 6 + len(r0.Name))
+        && len(r0.Data) == le32at(buf, 10 + len(r0.Name) + len(r0.Encoding))
+        && forall(k, 0, len(r0.Name), r0.Name[k] == buf[6 + k])
+        && forall(k, 0, len(r0.Data), r0.Data[k] == buf[14 + len(r0.Name) + len(r0.Encoding) + k])
+    ensures [schema-data-is-a-copy] {C01} r1 == nil ==> fresh(r0.Data) || len(r0.Data) == 0
 @*/
 /*@ func ParseChannel
     safety C10
     ensures r1 == nil ==> r0 != nil && fresh(r0)
+    ensures [channel-fields] {C01 C11} r1 == nil ==> r0.ID == le16at(buf, 0) && r0.SchemaID == le16at(buf, 2) && len(r0.Topic) == le32at(buf, 4) && len(r0.MessageEncoding) == le32at(buf, 8 + len(r0.Topic))
+        && forall(k, 0, len(r0.Topic), r0.Topic[k] == buf[8 + k])
 @*/
 /*@ func ParseMessage
     safety C10
@@ -256,22 +326,32 @@ package mcap
 /*@ func ParseAttachmentIndex
     safety C10
     ensures r1 == nil ==> r0 != nil && fresh(r0)
+    ensures [attachment-index-fields] {C01 C11} r1 == nil ==> r0.Offset == le64at(buf, 0) && r0.Length == le64at(buf, 8) && r0.LogTime == le64at(buf, 16) && r0.CreateTime == le64at(buf, 24)
+        && r0.DataSize == le64at(buf, 32) && len(r0.Name) == le32at(buf, 40) && len(r0.MediaType) == le32at(buf, 44 + len(r0.Name))
+    ensures [attachment-index-accepts-longer-records] {C11} len(buf) >= 44 && 48 + le32at(buf, 40) <= len(buf) && 48 + le32at(buf, 40) + le32at(buf, 44 + le32at(buf, 40)) <= len(buf) ==> r1 == nil
 @*/
 /*@ func ParseMetadata
     safety C10
     ensures r1 == nil ==> r0 != nil && fresh(r0)
+    ensures [metadata-fields] {C01 C11} r1 == nil ==> len(r0.Name) == le32at(buf, 0) && forall(k, 0, len(r0.Name), r0.Name[k] == buf[4 + k])
 @*/
 /*@ func ParseMetadataIndex
     safety C10
     ensures r1 == nil ==> r0 != nil && fresh(r0)
+    ensures [metadata-index-fields] {C01 C11} (r1 == nil) == (len(buf) >= 20 && 20 + le32at(buf, 16) <= len(buf))
+    ensures [metadata-index-fields] {C01 C11} r1 == nil ==> r0.Offset == le64at(buf, 0) && r0.Length == le64at(buf, 8) && len(r0.Name) == le32at(buf, 16)
 @*/
 /*@ func ParseSummaryOffset
     safety C10
     ensures r1 == nil ==> r0 != nil && fresh(r0)
+    ensures [summary-offset-fields] {C01 C11} (r1 == nil) == (len(buf) >= 17)
+    ensures [summary-offset-fields] {C01 C11} r1 == nil ==> r0.GroupOpcode == buf[0] && r0.GroupStart == le64at(buf, 1) && r0.GroupLength == le64at(buf, 9)
 @*/
 /*@ func ParseDataEnd
     safety C10
     ensures r1 == nil ==> r0 != nil && fresh(r0)
+    ensures [data-end-field] {C01 C11} (r1 == nil) == (len(buf) >= 4)
+    ensures [data-end-field] {C01 C11} r1 == nil ==> r0.DataSectionCRC == le32at(buf, 0)
 @*/
 
 /*@ func (*Reader).Close
@@ -285,10 +365,16 @@ package mcap
 /*@ func (*Reader).GetAttachmentReader
     safety C10
     requires wfReader(r) && r.rs != nil
+    ensures [source-fault-is-an-error-and-never-eof] {C15} (faulted() && !old(faulted()) ==> r1 != nil && !isEOF(r1)) && (old(faulted()) ==> faulted())
+    call Seek#1 assert [attachment-located-by-its-index-offset] {C02} arg0 == int64(wrap64(offset + 9)) && arg1 == 0
+    call parseAttachmentReader#1 assert [attachment-crc-always-computed] {C02 C07} arg1 == true
 @*/
 /*@ func (*Reader).GetMetadata
     safety C10
     requires wfReader(r) && r.rs != nil
+    ensures [source-fault-is-an-error-and-never-eof] {C15} (faulted() && !old(faulted()) ==> r1 != nil && !isEOF(r1)) && (old(faulted()) ==> faulted())
+    call Seek#1 assert [metadata-located-by-its-index-offset] {C02} arg0 == int64(offset) && arg1 == 0
+    ensures [only-a-metadata-record-is-accepted] {C02} r1 == nil ==> r0 != nil
 @*/
 /*@ func (*Reader).Info
     safety C10
@@ -296,12 +382,20 @@ package mcap
     touches r, r.l
     ensures wfReader(r)
     ensures r1 == nil ==> r0 != nil
+    ensures [source-fault-is-an-error-and-never-eof] {C15} (faulted() && !old(faulted()) ==> r1 != nil && !isEOF(r1)) && (old(faulted()) ==> faulted())
+    call parseSummarySection#1 assert [info-reads-the-summary-without-any-filter] {C08 C02} len(it.topics) == 0 && it.start == 0 && it.end == 0 && it.order == FileOrder
 @*/
 /*@ func (*Reader).Messages
     safety C10
     requires wfReader(r) && forall(k, 0, len(opts), opts[k] != nil)
     ensures [no-option-selects-every-time] {C04} len(opts) == 0 && r1 == nil ==> forall(t, 0, 18446744073709551616, inWindow(options.StartNanos, options.EndNanos, t))
     loop 1 invariant wfReader(r)
+    ensures [source-fault-is-an-error-and-never-eof] {C15} (faulted() && !old(faulted()) ==> r1 != nil && !isEOF(r1)) && (old(faulted()) ==> faulted())
+    call indexedMessageIterator#1 assert [index-used-only-when-the-summary-can-serve-it] {C02} (len(info.ChunkIndexes) > 0 ==> len(info.Channels) > 0)
+        && (len(info.ChunkIndexes) == 0 ==> info.Statistics != nil && info.Statistics.MessageCount == 0)
+    call unindexedIterator#1 assert [fallback-scan-only-in-file-order] {C02} options.Order == FileOrder
+    call unindexedIterator#1 assert [fallback-scan-starts-where-the-reader-stood] {C02} pos(r.rs) == startPos
+    call Seek#2 assert [fallback-scan-restarts-where-the-reader-stood] {C02} arg0 == startPos && arg1 == 0
 @*/
 
 /*@ func (*ErrUnexpectedToken).Error
@@ -373,6 +467,15 @@ package mcap
     ensures [chunk-list-ordered-for-the-read-order] {C03} err == nil && old(len(it.chunkIndexes)) == 0 ==> chunksSorted(it)
     ensures [queue-untouched] {C03} old(queueSorted(it)) ==> queueSorted(it)
     loop 1 invariant [queue-untouched] {C03} it.order == old(it.order) && (old(queueSorted(it)) ==> queueSorted(it))
+    ensures [source-fault-is-an-error-and-never-eof] {C15} (faulted() && !old(faulted()) ==> err != nil && !isEOF(err)) && (old(faulted()) ==> faulted())
+    loop 1 invariant [no-fault-so-far] {C15} faulted() == old(faulted())
+    loop 1 backedge [without-filter-every-chunk-index-is-kept] {C08 C12 C02} tokenType == TokenChunkIndex && len(it.topics) == 0 && it.start == 0 && it.end == 0
+        ==> len(it.chunkIndexes) == athead(len(it.chunkIndexes)) + 1 && it.chunkIndexes[len(it.chunkIndexes)-1] == idx
+    loop 1 backedge [every-attachment-index-is-kept] {C08 C02} tokenType == TokenAttachmentIndex ==> len(it.attachmentIndexes) == athead(len(it.attachmentIndexes)) + 1 && it.attachmentIndexes[len(it.attachmentIndexes)-1] == idx_AttachmentIndex
+    loop 1 backedge [every-metadata-index-is-kept] {C08 C02} tokenType == TokenMetadataIndex ==> len(it.metadataIndexes) == athead(len(it.metadataIndexes)) + 1 && it.metadataIndexes[len(it.metadataIndexes)-1] == idx_MetadataIndex
+    loop 1 backedge [every-schema-is-kept] {C08 C12} tokenType == TokenSchema ==> smGet(it.schemas, schema.ID) == schema
+    loop 1 backedge [statistics-kept] {C08} tokenType == TokenStatistics ==> it.statistics == stats
+    loop 1 backedge [unknown-summary-tokens-change-nothing] {C11} tokenType != TokenChunkIndex && tokenType != TokenAttachmentIndex && tokenType != TokenMetadataIndex ==> len(it.chunkIndexes) == athead(len(it.chunkIndexes))
 @*/
 
 /*@ func (*indexedMessageIterator).loadChunk
@@ -385,7 +488,7 @@ package mcap
     loop 2 invariant [queued-in-window] {C04} queueInWindow(it) && it.start == old(it.start) && it.end == old(it.end)
     loop 2 backedge [none-missing] {C04} op == OpMessage && smGet(it.channels, athead(le16at(chunkSlot.buf, offset + 9))) != nil && inWindow(it.start, it.end, athead(le64at(chunkSlot.buf, offset + 15)))
         ==> len(it.messageIndexes) == athead(len(it.messageIndexes)) + 1 && it.messageIndexes[len(it.messageIndexes)-1].timestamp == athead(le64at(chunkSlot.buf, offset + 15)) && it.messageIndexes[len(it.messageIndexes)-1].offset == athead(offset)
-    loop 2 backedge [none-extra] {C04} len(it.messageIndexes) == athead(len(it.messageIndexes)) || (len(it.messageIndexes) == athead(len(it.messageIndexes)) + 1 && op == OpMessage)
+    loop 2 backedge [none-extra] {C04 C11} len(it.messageIndexes) == athead(len(it.messageIndexes)) || (len(it.messageIndexes) == athead(len(it.messageIndexes)) + 1 && op == OpMessage)
     loop 2 invariant len(it.messageIndexes) >= startIdx
     requires [queue-sorted] {C03} queueSorted(it)
     ensures [queue-sorted] {C03} err == nil ==> queueSorted(it)
@@ -404,6 +507,9 @@ package mcap
         && forall(s, 0, len(it.chunkSlots), it.chunkSlots[s].unreadMessages == old(it.chunkSlots[s].unreadMessages))
     loop 2 invariant [slot-count-is-entries-of-this-load] {C20} 0 <= chunkSlotIndex && chunkSlotIndex < len(it.chunkSlots) && it.chunkSlots[chunkSlotIndex].unreadMessages == len(it.messageIndexes) - startIdx
         && forall(k, startIdx, len(it.messageIndexes), it.messageIndexes[k].chunkSlotIndex == chunkSlotIndex)
+    ensures [source-fault-is-an-error-and-never-eof] {C15} (faulted() && !old(faulted()) ==> err != nil && !isEOF(err)) && (old(faulted()) ==> faulted())
+    loop 1 invariant [no-fault-so-far] {C15} old(faulted()) ==> faulted()
+    loop 2 invariant [no-fault-so-far] {C15} old(faulted()) ==> faulted()
 @*/
 
 /*@ func (*indexedMessageIterator).NextInto
@@ -428,6 +534,13 @@ package mcap
     call Get#1 assert [yield-releases-exactly-its-slot] {C20} it.chunkSlots[messageIndex.chunkSlotIndex].unreadMessages == wrap64(athead(it.chunkSlots[it.messageIndexes[it.curMessageIndex].chunkSlotIndex].unreadMessages) - 1)
         && len(it.chunkSlots) == athead(len(it.chunkSlots))
         && forall(s, 0, len(it.chunkSlots), s != it.messageIndexes[it.curMessageIndex-1].chunkSlotIndex ==> it.chunkSlots[s].unreadMessages == athead(it.chunkSlots[s].unreadMessages))
+    ensures [source-fault-is-an-error-and-never-eof] {C15} (faulted() && !old(faulted()) ==> r3 != nil && !isEOF(r3)) && (old(faulted()) ==> faulted())
+    loop 1 invariant [no-fault-so-far] {C15} faulted() == old(faulted())
+    loop 2 invariant [no-fault-so-far] {C15} faulted() == old(faulted())
+    loop 1 backedge [metadata-callback-once-per-index-entry-in-order] {C02} idx == it.metadataIndexes[athead(iter)]
+    call seekTo#1 assert [metadata-located-by-its-index-offset] {C02} arg0 == idx.Offset
+    call PopulateFrom#1 assert [message-data-is-copied-out-of-the-chunk-buffer] {C01} arg1 == true
+    ensures [message-bound-to-its-channel-and-schema] {C01 C02} r3 == nil ==> r1 == smGet(it.channels, r2.ChannelID) && r1 != nil && r0 == smGet(it.schemas, r1.SchemaID) && (r1.SchemaID != 0 ==> r0 != nil)
 @*/
 
 /*@ func (*indexedMessageIterator).Next
@@ -526,6 +639,8 @@ package mcap
 @*/
 /*@ func (*Writer).writeRecord
     inline
+    call Write#1 assert [record-header-is-opcode-and-length] {C01 C05} len(arg0) == 9 && arg0[0] == uint8(op) && le64at(arg0, 1) == len(data)
+    call Write#2 assert [record-payload-follows-its-header] {C01 C05} slid(arg0) == slid(data)
 @*/
 
 /*@ spec crcCfg(w) = (w.w.crc != nil) == w.opts.IncludeCRC
@@ -587,6 +702,7 @@ package mcap
     ensures w.opts == old(w.opts) && w.w == old(w.w) && w.Statistics == old(w.Statistics) && w.buf == old(w.buf) && len(w.buf) == old(len(w.buf))
     ensures w.channels == old(w.channels) && w.schemas == old(w.schemas) && w.messageIndexes == old(w.messageIndexes)
     ensures w.compressedWriter == old(w.compressedWriter) && w.compressed == old(w.compressed) && w.closed == old(w.closed)
+    ensures [scratch-buffer-kept-or-fresh] {C01} base(w.msg) == old(base(w.msg)) || fresh(w.msg)
 @*/
 
 /*@ func (*Writer).WriteHeader
@@ -599,6 +715,8 @@ package mcap
     requires [crc-inv] {C06} crcInv(w)
     ensures [crc-inv] {C06} crcInv(w)
     ensures [file-crc-range-kept] {C06} fileCrcKept(w, old(w.w.crc.crc), old(crcFrom(w)))
+    call writeRecord#1 assert [header-record-fields] {C01} arg1 == OpHeader && le32at(arg2, 0) == uint32(len(header.Profile)) && forall(k, 0, len(header.Profile), arg2[4 + k] == header.Profile[k])
+        && le32at(arg2, 4 + len(header.Profile)) == uint32(len(library)) && len(arg2) == 8 + len(header.Profile) + len(library) && (w.opts.OverrideLibrary ==> library == header.Library)
 @*/
 
 /*@ func (*Writer).WriteFooter
@@ -767,6 +885,13 @@ package mcap
     ensures [file-crc-range-kept] {C06} fileCrcKept(w, old(w.w.crc.crc), old(crcFrom(w)))
     requires [chunk-below-2^62-bytes] {C06} chunkRoom(w)
     ensures [index-keys] {C05} old(idxKeyed(w)) ==> idxKeyed(w)
+    call writeRecord#1 assert [schema-record-fields] {C01} arg1 == OpSchema && le16at(arg2, 0) == s.ID && le32at(arg2, 2) == uint32(len(s.Name)) && le32at(arg2, 6 + len(s.Name)) == uint32(len(s.Encoding))
+        && le32at(arg2, 10 + len(s.Name) + len(s.Encoding)) == uint32(len(s.Data)) && len(arg2) == 14 + len(s.Name) + len(s.Encoding) + len(s.Data)
+        && forall(k, 0, len(s.Name), arg2[6 + k] == s.Name[k]) && forall(k, 0, len(s.Data), arg2[14 + len(s.Name) + len(s.Encoding) + k] == s.Data[k])
+    call writeRecord#2 assert [schema-record-fields] {C01} arg1 == OpSchema && le16at(arg2, 0) == s.ID && le32at(arg2, 2) == uint32(len(s.Name)) && le32at(arg2, 6 + len(s.Name)) == uint32(len(s.Encoding))
+        && le32at(arg2, 10 + len(s.Name) + len(s.Encoding)) == uint32(len(s.Data)) && len(arg2) == 14 + len(s.Name) + len(s.Encoding) + len(s.Data)
+        && forall(k, 0, len(s.Name), arg2[6 + k] == s.Name[k]) && forall(k, 0, len(s.Data), arg2[14 + len(s.Name) + len(s.Encoding) + k] == s.Data[k])
+    requires [scratch-buffer-is-private] {C01} s != nil ==> base(s.Data) != base(w.msg)
 @*/
 
 /*@ func (*Writer).WriteChannel
@@ -785,6 +910,10 @@ package mcap
     ensures [file-crc-range-kept] {C06} fileCrcKept(w, old(w.w.crc.crc), old(crcFrom(w)))
     requires [chunk-below-2^62-bytes] {C06} chunkRoom(w)
     ensures [index-keys] {C05} old(idxKeyed(w)) ==> idxKeyed(w)
+    call writeRecord#1 assert [channel-record-fields] {C01} arg1 == OpChannel && le16at(arg2, 0) == c.ID && le16at(arg2, 2) == c.SchemaID && le32at(arg2, 4) == uint32(len(c.Topic)) && le32at(arg2, 8 + len(c.Topic)) == uint32(len(c.MessageEncoding))
+        && forall(k, 0, len(c.Topic), arg2[8 + k] == c.Topic[k])
+    call writeRecord#2 assert [channel-record-fields] {C01} arg1 == OpChannel && le16at(arg2, 0) == c.ID && le16at(arg2, 2) == c.SchemaID && le32at(arg2, 4) == uint32(len(c.Topic)) && le32at(arg2, 8 + len(c.Topic)) == uint32(len(c.MessageEncoding))
+        && forall(k, 0, len(c.Topic), arg2[8 + k] == c.Topic[k])
 @*/
 
 /*@ func (*Writer).WriteMessageIndex
@@ -834,6 +963,7 @@ package mcap
     ensures [file-crc-range-kept] {C06} fileCrcKept(w, old(w.w.crc.crc), old(crcFrom(w)))
     ensures [metadata-index-entry] {C05} r0 == nil ==> lastMeta(w).Offset == old(w.w.size) && lastMeta(w).Length == wrap64(w.w.size - old(w.w.size)) && lastMeta(w).Name == m.Name
     call writeRecord#1 assert [metadata-record-length] {C05} len(arg2) == offset
+    call writeRecord#1 assert [metadata-record-fields] {C01} arg1 == OpMetadata && le32at(arg2, 0) == uint32(len(m.Name)) && forall(k, 0, len(m.Name), arg2[4 + k] == m.Name[k])
 @*/
 
 /*@ func (*Writer).WriteChunkIndex
@@ -973,6 +1103,11 @@ package mcap
     call writeRecord#1 assert [message-index-entry-points-at-the-record] {C05} w.messageIndexes[m.ChannelID] == idx && idx.ChannelID == m.ChannelID && idx.currentIndex >= 1
         && idx.Records[idx.currentIndex-1].Timestamp == m.LogTime && idx.Records[idx.currentIndex-1].Offset == w.compressedWriter.size
     call flushActiveChunk#1 assert [index-keys-before-flush] {C05} idxKeyed(w)
+    call writeRecord#1 assert [message-record-fields] {C01} arg1 == OpMessage && len(arg2) == 22 + len(m.Data) && le16at(arg2, 0) == m.ChannelID && le32at(arg2, 2) == m.Sequence && le64at(arg2, 6) == m.LogTime && le64at(arg2, 14) == m.PublishTime
+        && forall(k, 0, len(m.Data), arg2[22 + k] == m.Data[k])
+    call writeRecord#2 assert [message-record-fields] {C01} arg1 == OpMessage && len(arg2) == 22 + len(m.Data) && le16at(arg2, 0) == m.ChannelID && le32at(arg2, 2) == m.Sequence && le64at(arg2, 6) == m.LogTime && le64at(arg2, 14) == m.PublishTime
+        && forall(k, 0, len(m.Data), arg2[22 + k] == m.Data[k])
+    requires [scratch-buffer-is-private] {C01} base(m.Data) != base(w.msg)
 @*/
 
 /*@ func newCRCWriter
@@ -1097,6 +1232,7 @@ package mcap
     touches ro
     ensures [finalize] {C04} ro.StartNanos == ite(old(ro.StartNanos) == 0 && old(ro.Start) > 0, old(ro.Start), old(ro.StartNanos))
     ensures [finalize] {C04} ro.EndNanos == ite(old(ro.EndNanos) == 0 && old(ro.End) > 0, old(ro.End), old(ro.EndNanos))
+    ensures [finalize-keeps-the-rest] {C02 C04} ro.Order == old(ro.Order) && len(ro.Topics) == old(len(ro.Topics)) && ro.UseIndex == old(ro.UseIndex)
 @*/
 
 /*@ func verifLemmaAfter
